@@ -265,6 +265,9 @@ def specs(tier, seed):
     for ha, hb in ((20.0, 20.0), (20.0, 15.0), (0.0, 0.0), (0.0, 5.0)):
         cells.append(('gear', 'helical', 'helical', (('helix', ha), ('n', 15), ('module', 'sym')),
                       (('helix', hb), ('n', 45), ('module', 'sym')), None, False))
+    for hx in (0.0, 20.0):
+        cells.append(('gear', 'spur', 'helical', (('n', 12),), (('helix', hx), ('n', 30)), None, False))
+        cells.append(('gear', 'helical', 'spur', (('helix', hx), ('n', 12)), (('n', 30),), None, False))
     pas = [14.5, 20.0, 25.0, 30.0]
     for pa in pas:
         helixes = [0.0, 5.0, float(MAXHELIX[pa])] if tier == 'quick' else [0.0, 1.0, 5.0, 10.0, 15.0, float(MAXHELIX[pa])]
@@ -305,7 +308,7 @@ REQUIRED_TRIGGERS = {'quick': ('rel.linked_mutually', 'rel.roles', 'rel.ratio', 
                                'rel.incompatible_pair_rejected')}
 BOUNDS = {
     'quick': 'all 6x6 ordered pairs of element kinds (+ an element with itself) x the three relation functions; spur '
-             'pairs with modules symbolic/absent/fixed (9), helical pairs with equal/unequal/zero helix, worm matings in '
+             'pairs with modules symbolic/absent/fixed (9), helical pairs with equal/unequal/zero helix, spur with helical (helix 0 and 20 deg, both orders), worm matings in '
              'both orientations at all four pressure angles x helix {0, 5 deg, table maximum}, mismatching pressure '
              'angles; the call under test also on elements that already carry a relation; efficiency / friction '
              'coefficient: every real number (in and out of range); modules: every positive real',
